@@ -53,7 +53,8 @@ TARGET_REPO = os.path.join(vlib.WORK, "target-repo")
 CLI_BIN = os.path.join(TARGET_REPO, "debug", "cargo-typify")
 # RUSTC_BOOTSTRAP=1 (needed for -Zunpretty) is a rerun-if-env-changed input of proc-macro2's build
 # script: sharing one target dir with the plain workspace build rebuilds ~20 crates on every switch.
-TARGET_EXPAND = os.path.join(vlib.WORK, "target-repo-expand")
+TARGET_EXPAND = os.path.join(vlib.WORK, "target-repo-expand" + (
+    "" if os.environ.get("C15_MACRO_REPO", vlib.REPO) == vlib.REPO else "-alt"))
 CORPUS = os.path.join(vlib.ROOT, "corpus", "C15")
 SCHEMA_DIR = os.path.join(vlib.REPO, "typify", "tests", "schemas")
 
@@ -63,7 +64,8 @@ ENV.pop("RUSTFLAGS", None)
 # Detection tests without touching /repo (other builders share it): the option named here is
 # withheld from / altered for ONE real front-end, which is what that front-end dropping or
 # mis-parsing the option would look like.  Values: cli-map-type-ignored, cli-no-builder-ignored,
-# cli-unknown-ignored, macro-derives-dropped, macro-patch-dropped, spec-rename-dropped, spec-star-is-never.
+# cli-unknown-ignored, macro-derives-dropped, macro-patch-dropped, spec-rename-dropped, spec-star-is-never,
+# macro-impl-defaults-only-without-list.
 EMU = os.environ.get("C15_EMULATE", "")
 
 
@@ -175,9 +177,9 @@ def builder_settings_json(o):
     if o.get("patch"):
         s["patch"] = o["patch"]
     if o.get("replace"):
-        s["replace"] = o["replace"]
+        s["replace"] = {k: {"type": r["type"], "impls": r["impls"]} for k, r in o["replace"].items()}
     if o.get("convert"):
-        s["convert"] = o["convert"]
+        s["convert"] = [{"schema": c["schema"], "type": c["type"], "impls": c["impls"]} for c in o["convert"]]
     return s
 
 
@@ -199,6 +201,29 @@ def impl_syntax(impls):
     if "Default" in impls:
         parts.append("Default")
     return (": " + " + ".join(parts)) if parts else ""
+
+
+def spec_syntax(specs):
+    """`: ?Display + Default` for [["?", "Display"], ["", "Default"]]; no colon for the empty list."""
+    return (": " + " + ".join(m + t for m, t in specs)) if specs else ""
+
+
+def emu_specs(specs):
+    # what `defaults only when no list was written` would make of a non-empty list, expressed in real syntax
+    if EMU == "macro-impl-defaults-only-without-list" and specs:
+        return [["?", "FromStr"], ["?", "Display"]] + list(specs)
+    return specs
+
+
+def entry_syntax(r):
+    if "specs" in r:
+        return spec_syntax(emu_specs(r["specs"]))
+    return impl_syntax(r["impls"])
+
+
+def coq_specs(specs):
+    t = {"FromStr": "Some IFromStr", "Display": "Some IDisplay", "Default": "Some IDefault"}
+    return "[" + "; ".join("(%s, %s)" % ("MMaybe" if m == "?" else "MNone", t.get(n, "None")) for m, n in specs) + "]"
 
 
 def macro_invocation(schema_path, o, order=None):
@@ -230,14 +255,18 @@ def macro_invocation(schema_path, o, order=None):
             ents.append("%s = { %s }" % (k, ", ".join(inner)))
         parts.append("patch = { %s }" % ", ".join(ents))
     if o.get("replace"):
-        ents = ["%s = %s%s" % (k, r["type"], impl_syntax(r["impls"])) for k, r in o["replace"].items()]
+        ents = ["%s = %s%s" % (k, r["type"], entry_syntax(r)) for k, r in o["replace"].items()]
         parts.append("replace = { %s }" % ", ".join(ents))
     if o.get("convert"):
-        ents = ["%s = %s%s" % (macro_tokens_of_json(c["schema"]), c["type"], impl_syntax(c["impls"]))
+        ents = ["%s = %s%s" % (macro_tokens_of_json(c["schema"]), c["type"], entry_syntax(c))
                 for c in o["convert"]]
         parts.append("convert = { %s }" % ", ".join(ents))
     return "typify::import_types!(\n        %s\n    );" % ",\n        ".join(parts)
 
+
+# The macro leg can be pointed at a COPY of the repository (detection tests of changes to
+# typify-macro without editing /repo, which other builders share): C15_MACRO_REPO=/path/to/copy
+MACRO_REPO = os.environ.get("C15_MACRO_REPO", vlib.REPO)
 
 CARGO_TOML = """[package]
 name = "%s"
@@ -247,7 +276,7 @@ edition = "2021"
 [workspace]
 
 [dependencies]
-typify = { path = "/repo/typify" }
+typify = { path = "%s/typify" }
 serde = { version = "1.0", features = ["derive"] }
 serde_json = "1.0"
 chrono = { version = "0.4", features = ["serde"] }
@@ -260,6 +289,8 @@ PRELUDE = """#![allow(warnings)]
 pub struct MyFruit;
 pub struct MyUuid;
 pub struct MyHand;
+pub struct MyId;
+pub struct MyTok;
 pub mod d { pub use schemars::JsonSchema as Js; }
 pub mod d2 { pub use schemars::JsonSchema as Js2; }
 """
@@ -275,7 +306,7 @@ def scratch_crate(name, lib_rs, files=None):
     def put(path, text):
         if not os.path.exists(path) or open(path).read() != text:
             open(path, "w").write(text)
-    put(os.path.join(d, "Cargo.toml"), CARGO_TOML % name)
+    put(os.path.join(d, "Cargo.toml"), CARGO_TOML % (name, MACRO_REPO))
     put(os.path.join(d, "Cargo.lock"), open(os.path.join(vlib.REPO, "Cargo.lock")).read())
     put(os.path.join(d, "rust-toolchain.toml"), '[toolchain]\nchannel = "1.80.1"\n')
     for fn, text in (files or {}).items():
@@ -389,6 +420,7 @@ def fixture_schemas():
     fx = [os.path.join(vlib.REPO, "example.json")]
     fx += sorted(os.path.join(SCHEMA_DIR, f) for f in os.listdir(SCHEMA_DIR) if f.endswith(".json"))
     fx.append(os.path.join(CORPUS, "xrt.json"))
+    fx.append(os.path.join(CORPUS, "impls.json"))
     return fx
 
 
@@ -399,6 +431,24 @@ CRATE_NAMES_DIGIT = ["base64", "my_util2"]
 RENAMES_PLAIN = ["ren", "my-ren", "cot_x"]
 RENAMES_DIGIT = ["r2", "cot_2"]
 CRATE_VERSIONS = ["1.0.0", "0.21.0", "0.21.7", "0.5.0", "2.0.0", "*", "!", "1.0.1-alpha.1", "0.9.9"]
+
+
+# macro trait lists (modifier, ident); `Hash` is not a TypeSpaceImpl name and is silently ignored
+TRAIT_LISTS = [
+    [], [["", "Default"]], [["?", "Display"]], [["", "FromStr"], ["?", "Display"]], [["", "Display"], ["", "Default"]],
+    [["?", "FromStr"], ["?", "Display"]], [["?", "FromStr"]], [["?", "FromStr"], ["", "Default"]],
+    [["?", "Display"], ["", "Display"]], [["", "Display"], ["?", "Display"]], [["", "Hash"]], [["", "Hash"], ["?", "FromStr"]],
+    [["?", "Default"]], [["", "FromStr"], ["", "Display"], ["", "Default"]],
+]
+
+
+def impls_case(rspecs, cspecs):
+    """replace + convert entries on corpus/C15/impls.json with explicit trait lists; `impls` is filled
+    in later from the Coq model (impls_of_specs), never from a re-implementation in python."""
+    return {"struct_builder": False, "derives": [], "crates": [],
+            "replace": {"Id": {"type": "crate::MyId", "specs": rspecs, "impls": None}},
+            "convert": [{"schema": {"type": "string", "format": "x-token"}, "type": "crate::MyTok", "specs": cspecs,
+                         "impls": None}]}
 
 
 def gen_opts(rnd, schema, digits_ok, for_macro, macro_map_ok):
@@ -425,6 +475,9 @@ def gen_opts(rnd, schema, digits_ok, for_macro, macro_map_ok):
             if rnd.random() < 0.45 and rens:
                 c["rename"] = rens.pop()
             o["crates"].append(c)
+    if for_macro and base == "impls.json":
+        o.update({k: v for k, v in impls_case(rnd.choice(TRAIT_LISTS), rnd.choice(TRAIT_LISTS)).items()
+                  if k in ("replace", "convert")})
     if for_macro:
         if base == "example.json":
             if rnd.random() < 0.6:
@@ -952,7 +1005,7 @@ def check_three_frontends(ctx, rnd, digits_defect, findings, unlisted):
         ctx.oblige("macro parser model evaluates", False, str(e)[-1500:])
 
     # ---- option assignments
-    n_macro = 12 if quick else 60
+    n_macro = 20 if quick else 70
     n_cli_only = 24 if quick else 140
     cases = []
     # curated first (corpus): README examples and every option at least once
@@ -968,7 +1021,17 @@ def check_three_frontends(ctx, rnd, digits_defect, findings, unlisted):
                       "crates": [{"name": "crate-o-types", "version": "!"}, {"name": "std", "version": "1.0.0"}]}),
         ("x-rust-type.json", {"struct_builder": False, "derives": [], "crates": [{"name": "std", "version": "1.0.0"}]}),
         ("maps.json", {"struct_builder": False, "derives": [], "crates": [], "map_type": "::std::collections::BTreeMap",
-                       "cli_only": True}),
+                       "cli_only": not macro_map_ok}),
+        # TypeAndImpls: explicit trait lists on replace (Id) and convert (x-token); Wrapper/Token are aliases of
+        # the replaced/converted type, IdOrCount/TokenOrCount untagged enums over it: their FromStr/Display impls
+        # exist iff the native type is said to have them
+        ("impls.json", impls_case([["", "Default"]], [["?", "Display"]])),
+        ("impls.json", impls_case([["?", "Display"]], [["", "Default"]])),
+        ("impls.json", impls_case([["", "FromStr"], ["?", "Display"]], [["?", "FromStr"], ["?", "Display"]])),
+        ("impls.json", impls_case([["", "Display"], ["", "Default"]], [["?", "FromStr"]])),
+        ("impls.json", impls_case([], [["?", "FromStr"], ["", "Default"]])),
+        ("impls.json", impls_case([["?", "Display"], ["", "Display"]], [["", "Display"], ["?", "Display"]])),
+        ("impls.json", impls_case([["", "Hash"]], [])),
     ]
     for base, o in curated:
         o = dict(o)
@@ -976,13 +1039,33 @@ def check_three_frontends(ctx, rnd, digits_defect, findings, unlisted):
         cases.append({"schema": os.path.join(wdir, base), "o": o, "macro": not o.pop("cli_only", False)})
     while len([c for c in cases if c["macro"]]) < n_macro:
         s = rnd.choice(copies) if rnd.random() < 0.6 else rnd.choice(
-            [os.path.join(wdir, b) for b in ("xrt.json", "example.json", "type-with-modified-generation.json", "maps.json")])
+            [os.path.join(wdir, b) for b in ("xrt.json", "example.json", "type-with-modified-generation.json", "maps.json",
+                                             "impls.json")])
         cases.append({"schema": s, "o": gen_opts(rnd, s, True, True, macro_map_ok), "macro": True})
     for _ in range(n_cli_only):
         s = rnd.choice(copies)
         cases.append({"schema": s, "o": gen_opts(rnd, s, not digits_defect, False, True), "macro": False})
     for i, c in enumerate(cases):
         c["id"] = "c%d" % i
+
+    # ---- TypeAndImpls: the builder gets the impl set the MODEL computes for the macro's trait list
+    ents = [e for c in cases for e in list(c["o"].get("replace", {}).values()) + list(c["o"].get("convert", []))
+            if "specs" in e]
+    lists = sorted({json.dumps(e["specs"]) for e in ents})
+    try:
+        vals = vlib.coq_eval_strings("c15impls", HEADER, ["run_impls %s" % coq_specs(json.loads(l)) for l in lists],
+                                     shard=200) if lists else []
+        table = {l: [x for x in v.split("/") if x] for l, v in zip(lists, vals)}
+        for e in ents:
+            e["impls"] = table[json.dumps(e["specs"])]
+        ctx.coverage["type_and_impls_lists"] = {spec_syntax(json.loads(l)) or "(none)": table[l] for l in lists}
+    except Exception as e:  # noqa
+        ctx.oblige("model impls_of_specs evaluates", False, str(e)[-1500:])
+        cases = [c for c in cases if not any("specs" in e for e in list(c["o"].get("replace", {}).values()) +
+                                             list(c["o"].get("convert", [])))]
+    n_lists_cases = len([c for c in cases if c["macro"] and any(
+        e.get("specs") for e in list(c["o"].get("replace", {}).values()) + list(c["o"].get("convert", [])))])
+    ctx.coverage["type_and_impls_macro_cases_with_explicit_list"] = n_lists_cases
 
     # ---- builder
     t0 = time.time()
@@ -1116,7 +1199,8 @@ def check_three_frontends(ctx, rnd, digits_defect, findings, unlisted):
         "option_assignments": len(cases), "builder_ok": len([c for c in cases if c["builder_ok"]]),
         "cli_runs": n_cli, "cli_skipped_digit_names(known finding)": n_cli_skipped, "cli_vs_builder_compared": len(cmp_idx),
         "macro_cases": len(mcases), "all_three": n_three, "items_compared_cli": n_items, "distribution": dist,
-        "macro_map_type_usable": macro_map_ok}
+        "macro_map_type_usable": macro_map_ok,
+        "macro_cases_with_map_type": len([c for c in mcases if c["o"].get("map_type")])}
 
     # ---- duplicate original crate names in the macro's `crates` map
     mt = vlib.run_bin("c15", [{"op": "modtext", "path": exp_path, "modules": ["dup%d_macro" % k for k in range(n_dup)]}])[0]
